@@ -211,6 +211,20 @@ class EnsembleSampler(MarkovChain):
         [self.__advance_walker(i) for i in range(self.n_walkers)]
         self.n_iterations += 1
 
+    def take_step(self):
+        """
+        Advance the ensemble sampler by a single iteration, storing the new walker
+        positions as samples (used by ``run_for``).
+        """
+        self.__advance_all()
+        positions, probs = self.walker_positions.copy(), self.walker_probs.copy()
+        if self.sample is None:
+            self.sample, self.sample_probs = positions, probs
+        else:
+            self.sample = concatenate([self.sample, positions])
+            self.sample_probs = concatenate([self.sample_probs, probs])
+        self.chain_length = self.sample_probs.size
+
     def advance(self, iterations: int):
         """
         Advance the ensemble sampler a chosen number of iterations.
